@@ -7,7 +7,9 @@ number of `stop()` callers and of external writers, the rest of the broker and t
 environment events) and hold for EVERY initial buffer state, traffic still to come, schedule of
 thread steps and interleaved environment events (peer closes, stops/resumes reading, keep-alive
 expiry, the connection a delivery is addressed to blocks/unblocks, `Server.Close`).
-`WF c` fixes the code as it is: repaired ring (the contract of C15), `stop()` in the order of
+`WF c` fixes the code as it is: repaired ring (the contract of C15 — DERIVED from the ring program, not assumed:
+`C16_ring_contract_is_C15`, `C16_ring_steps_use_ringA`, `C16_out_ring_one_producer`, at the end of this file; where the
+abstraction `RingA` is stronger than the ring — `done` and the cursors are tested in one step — is said there), `stop()` in the order of
 service.go, a receiver that closes the socket when its read has failed (repair b77088f, finding F7)
 and a `ReadFrom` that waits only while the incoming ring is completely full and reads into the free
 space (repair 8f682d1, finding F3) — regenerated: `C16_source_shape` —, a ring that holds a packet header.
@@ -80,6 +82,7 @@ own outgoing ring) has no read pending and no deadline armed — finding F8, `C1
 import Mqtt.Proofs.LifecycleChunk
 import Mqtt.Proofs.LifecycleFacts
 import Mqtt.Proofs.RingFacts
+import Mqtt.Proofs.LifecycleRing
 
 set_option linter.unusedSimpArgs false
 set_option linter.unusedVariables false
@@ -538,7 +541,9 @@ theorem C16_no_foreign_panic (c : Cfg) (hw : WF c) (s0 : St) (h0 : Init c s0) (s
   obtain ⟨hi, hn⟩ := C16_invariant c hw s0 h0 sched
   exact ⟨hi.k.nil, hn⟩
 
-/-- **(d) a late delivery fails fast.**  Once the outgoing ring is closed (by `stop()`, by the
+/-- **(d) a late delivery fails fast.**  (About ring calls that START after the close; for a writer already inside
+`WriteWait`/`WriteCommit` when the ring is closed see `C16_ring_contract_is_C15`, "where `RingA` is stronger".)
+Once the outgoing ring is closed (by `stop()`, by the
 sender's deferred Close, by `Server.Close`), a writer past the lock is enabled and its step returns
 end-of-stream without committing anything and releases `wmu`; a writer at the nil test is enabled; a
 writer at the lock is enabled unless `wmu` is held — and then its holder is enabled.  Nobody blocks
@@ -552,6 +557,97 @@ theorem C16_late_delivery_fails_fast (c : Cfg) (hw : WF c) (s0 : St) (h0 : Init 
       (w.pc = .lock → en c s (.w i) = true ∨ ∃ t, s.sh.wmu = some t ∧ en c s t = true) := by
   intro s hd i w hwi
   exact late_delivery c hw s (C16_invariant c hw s0 h0 sched).1 hd i w hwi
+
+/-! ## The ring contract: derived from Core D (`Properties/C15.lean`), cited here
+
+The rings of the model are `RingA` = (bytes buffered, `done`) with one atomic step per ring call, a waiting call being a
+step that is not enabled.  The three theorems below are what justifies that: they are ABOUT THE RING PROGRAM
+(`Model/Ring.lean`, the program-counter-level model of buffer.go that C14/C15 verify and tie to the code) and are proved by
+citing the call-level theorems of `Properties/C15.lean` — `#print axioms` and the import graph show the dependency. -/
+
+section RingContract
+open Mqtt.Proofs.LifecycleRing
+
+/-- **The life-cycle model's ring contract is C15's.**  For every ring size `2^k`, stream, well-typed thread programs (ONE
+producer — `C16_out_ring_one_producer` —, one consumer, any number of closers), and schedule: in the reachable state `s`
+of the ring program, with `absRing s = (pseq - cseq, done)` and `ringCfg` = the life-cycle configuration of that capacity,
+
+* `step`      every step of the ring program is `RingA.commitP` (+n, by the producer only, `buf + n ≤ cap` before it),
+              `RingA.commitC` (-n, by the consumer only, `n ≤ buf` before it), `RingA.close`, or invisible — (b) EFFECT;
+* `producer`  a complete `WriteWait(l)` / `WriteCommit(l)` / `Write(l)` under any interleaving (`pstep .ownWait/.ownCommit`,
+              `wstep .wait/.commit`): its outcome is the answer of `RingA.waitSpace` / `RingA.commitP` at its linearisation
+              point — `full` iff `cap < l`; end-of-stream only with `done` set; `ok` only if the ring was open when the call
+              started and, for the committing calls, exactly one own step adds exactly `l`, with `buf + l ≤ cap` before it —
+              (a) ENABLEDNESS, (b); and when nothing can run the call is unfinished iff the producer is parked in it and
+              `RingA.waitSpace … l = none` — (c) BLOCKING = NOT ENABLED;
+* `consumer`  the same for `ReadWait(n)` / `ReadPeek(n)` (`pstep .size/.msg`, `sstep .peek`; no effect; `ok` with the bytes
+              buffered from then on — also on a closed ring —, end-of-stream only with `done` set and too few bytes when the
+              call looked) and `ReadCommit(n)` (`pstep .commit`, `sstep .commit`: IS `RingA.commitC`, never waits);
+* `close`     `Close()` (`rstep/sstep .close`, `execStop .inClose/.outClose`, `estep .preClose`) returns `ok`, its first
+              statement IS `RingA.close`, it never waits, and once `done` is set no call stays unfinished when nothing can
+              run: every parked call has returned — (d) CLOSE;
+* `readfrom`  one iteration of `ReadFrom` is the receiver's `.space` (one byte free when `waitForWriteSpace(1)` has
+              returned), `.read` (at most `cap - buf` bytes), `.commit n` (`buf + n ≤ cap`: never waits; its cursor store is
+              `RingA.commitP`), its exit is `.close` (returns only through its deferred `Close`, ring closed), and it is
+              parked only while `RingA.waitSpace … 1 = none` (ring open and completely full);
+* `quiescent` thread by thread, a state in which nothing can run.
+
+WHERE `RingA` IS STRONGER THAN THE RING.  `RingA.waitSpace/commitP/waitData` test `done` and the cursors in ONE step; the ring
+tests them at two statements of the call.  The equations therefore carry `asOpen` / `asClosed` (the `done` flag as the call
+saw it): a producer call that passed its `isDone` test — or was woken by `Close` and finds space — commits although the ring
+has been closed meanwhile (`C15_ringA_gap_late_commit`), and `ReadWait` answers end-of-stream although the bytes were
+committed between its cursor test and its `done` test (`C15_ringA_gap_eof_with_data`).  Consequences for THIS file: the
+reachable states of the model do not include a ring whose `buf` grows after `done` (a late commit into a closed ring, which
+nobody reads any more: the sender leaves at its next `isDone`, the processor has left or leaves at its next end-of-stream);
+`C16_late_delivery_fails_fast`, second conjunct, is about a writer whose ring call STARTS after the close (then it does fail
+at once: `producer`, `ok → done = false at the start`) — a writer already inside `WriteWait`/`WriteCommit` may instead commit
+and return `ok`.  No conclusion of the teardown theorems mentions ring contents; their robustness against these two
+interleavings is argued in NOTES-ringlife.md, not proved (the model is frozen). -/
+theorem C16_ring_contract_is_C15 (cfg : Mqtt.Model.Ring.Cfg) (adv gate : Nat)
+    (progP progC : List Mqtt.Iface.Ring.Call) (progsK : List (List Mqtt.Iface.Ring.Call))
+    (hgate : gate ≤ adv) (hok : Mqtt.Proofs.Ring.ProgsOK progP progC progsK) (sched0 : List Mqtt.Iface.Ring.Tid) :
+    RingContract cfg (Mqtt.Properties.C15.reach cfg adv gate progP progC progsK sched0) :=
+  ring_contract cfg adv gate progP progC progsK hgate hok sched0
+
+/-- **Each life-cycle ring step is enabled exactly when its `RingA` function answers**, for every well-formed configuration;
+and the `RingA` functions of a well-formed configuration of capacity `2^k` ARE those of `ringCfg` (they look at `cap` and
+the OLD-ring switch only) — so `C16_ring_contract_is_C15` is about the functions the model's steps call. -/
+theorem C16_ring_steps_use_ringA (c : Cfg) (hw : WF c) (sh : Sh) (k : Nat) :
+    ((rstep c sh k .space = none ↔ sh.inR.waitSpace c 1 = none) ∧
+     (∀ n, rstep c sh k (.commit n) = none ↔ sh.inR.commitP c n = none) ∧
+     (rstep c sh k .close ≠ none) ∧
+     (sstep c sh .peek = none ↔ sh.outR.waitData c 1 = none) ∧
+     (∀ m, sstep c sh (.commit m) ≠ none) ∧ (sstep c sh .close ≠ none) ∧
+     (pstep c sh .size = none ↔ sh.inR.waitData c (hdrNeed sh.stream) = none) ∧
+     (∀ p tl, sh.stream = p :: tl → (pstep c sh .msg = none ↔ sh.inR.waitData c p.total = none)) ∧
+     (∀ l rest, pstep c sh (.ownWait l rest) = none ↔ sh.outR.waitSpace c l = none) ∧
+     (∀ l rest, pstep c sh (.ownCommit l rest) = none ↔ sh.outR.commitP c l = none) ∧
+     (pstep c sh .commit ≠ none) ∧
+     (∀ me l, sh.ringsNil = false → (wstep c sh me ⟨.wait, l⟩ = none ↔ sh.outR.waitSpace c l = none)) ∧
+     (∀ me l, sh.ringsNil = false → (wstep c sh me ⟨.commit, l⟩ = none ↔ sh.outR.commitP c l = none)) ∧
+     (∀ me, execStop c sh me .inClose ≠ none ∧ execStop c sh me .outClose ≠ none)) ∧
+    (∀ (rcfg : Mqtt.Model.Ring.Cfg), c.cap = rcfg.size → ∀ (r : RingA) (n : Nat),
+      r.waitSpace c n = r.waitSpace (Mqtt.Proofs.Ring.ringCfg rcfg) n ∧ r.commitP c n = r.commitP (Mqtt.Proofs.Ring.ringCfg rcfg) n ∧
+      r.waitData c n = r.waitData (Mqtt.Proofs.Ring.ringCfg rcfg) n ∧ r.commitC c n = r.commitC (Mqtt.Proofs.Ring.ringCfg rcfg) n ∧
+      r.close c = r.close (Mqtt.Proofs.Ring.ringCfg rcfg)) :=
+  ⟨ring_steps_enabled c hw sh k, fun rcfg hcap r n => ringA_cfg_irrel c _ hcap hw.d2 r n⟩
+
+/-- **The outgoing ring sees one producer at a time** (the hypothesis under which the ring program's single producer thread
+stands for all goroutines that deliver to a connection).  In every reachable state of the life-cycle model at most one
+thread is inside a producer call of the outgoing ring: if the processor is (`.ownWait`, `.ownCommit`) no external writer is,
+and two external writers that are (`.wait`, `.commit`) are the same one — `wmu`.  Their ring calls therefore form one
+sequential program.  For the code itself (wrap branch and scratch buffer included) the same mutual exclusion is
+`C17_wrap_critical_section` / `C17_wrap_one_producer` (`Properties/C17.lean`; not imported here: C16 does not depend on
+C17's other obligations). -/
+theorem C16_out_ring_one_producer (c : Cfg) (hw : WF c) (s0 : St) (h0 : Init c s0) (sched : List Label) :
+    let s := reach c s0 sched
+    (PPc.holdsWmu s.proc = true → ∀ (i : Nat) (w : WTh), s.ws[i]? = some w → WPc.holdsWmu w.pc = false) ∧
+    (∀ (i j : Nat) (wi wj : WTh), s.ws[i]? = some wi → s.ws[j]? = some wj →
+      WPc.holdsWmu wi.pc = true → WPc.holdsWmu wj.pc = true → i = j) := by
+  intro s
+  exact out_ring_one_producer s (C16_invariant c hw s0 h0 sched).1.w
+
+end RingContract
 
 /-! ## Closed counterexamples: what the repaired defects did -/
 
